@@ -550,9 +550,16 @@ def _gen_case(rng, kind, tier):
         xyz[f].append([xyz[f][0][j] + sum(n[k] * cells[f][k][j] for k in range(3)) for j in range(3)])
     i0 = rng.randrange(n_atoms)
     pairs = gen_pairs(rng, n_atoms, rng.randint(1, 5)) + [[i0, i0], [0, n_atoms - 1], [1, n_atoms - 2]]
-    times = [[rng.randrange(n_frames), rng.randrange(n_frames)] for _ in range(rng.randint(1, 3))]
+    # every ordered pair of frames (incl. t1 == t2) once, plus a repeated one
+    times = [[t1, t2] for t1 in range(n_frames) for t2 in range(n_frames)]
+    rng.shuffle(times)
+    times.append(list(times[0]))
+    # the two groups may overlap (closest contact of an atom with itself / a coincident atom / its own image)
     g1 = sorted(rng.sample(range(n_atoms), rng.randint(1, max(1, n_atoms // 2))))
     g2 = sorted(rng.sample(range(n_atoms), rng.randint(1, max(1, n_atoms // 2))))
+    if rng.random() < 0.3:
+        g2 = sorted(set(g2) | {n_atoms - 1})
+        g1 = sorted(set(g1) | {0})
     calls = []
     for opt in (True, False):
         calls.append({"api": "disp", "opt": opt, "periodic": True, "pairs": pairs})
@@ -564,9 +571,9 @@ def _gen_case(rng, kind, tier):
     calls.append({"api": "dist", "opt": not o, "periodic": False, "pairs": pairs})
     calls.append({"api": "dist_t", "opt": o, "periodic": False, "pairs": pairs, "times": times})
     calls.append({"api": "core", "opt": o, "periodic": True, "pairs": pairs})
-    fr = rng.randrange(n_frames)
-    calls.append({"api": "fcc", "periodic": True, "g1": g1, "g2": g2, "frame": fr})
-    calls.append({"api": "fcc", "periodic": False, "g1": g1, "g2": g2, "frame": fr})
+    for fr in range(n_frames):
+        calls.append({"api": "fcc", "periodic": True, "g1": g1, "g2": g2, "frame": fr})
+    calls.append({"api": "fcc", "periodic": False, "g1": g1, "g2": g2, "frame": rng.randrange(n_frames)})
     return {"kind": kind, "unreduced": unred, "perframe": perframe, "spread": spread, "special": special,
             "grid": GRID, "xyz": xyz, "box": [[[v / U for v in row] for row in c] for c in traj_cells],
             "raw_box": [[[v / U for v in row] for row in c] for c in raw_cells], "calls": calls}
@@ -610,12 +617,24 @@ def fixed_cases():
                          {"api": "dist", "opt": False, "periodic": True, "pairs": pn},
                          {"api": "disp", "opt": True, "periodic": True, "pairs": pn, "oracle_only": True},
                          {"api": "disp", "opt": False, "periodic": True, "pairs": pn, "oracle_only": True}]})
+    # (3) compute_distances_core is the only entry point that can be handed a cell in NON-standard orientation
+    # (a not along x / b not in the xy plane).  Cells rotated by the exact (3,4,5) angle about z or x, on the grid.
+    for tag, rot in (("z", lambda v: [(3 * v[0] - 4 * v[1]) // 5, (4 * v[0] + 3 * v[1]) // 5, v[2]]),
+                     ("x", lambda v: [v[0], (3 * v[1] - 4 * v[2]) // 5, (4 * v[1] + 3 * v[2]) // 5])):
+        for base in ([[3000, 0, 0], [0, 3000, 0], [0, 0, 3000]], [[3000, 0, 0], [1000, 3500, 0], [500, -750, 2500]]):
+            cell = [rot(v) for v in base]
+            pts = [[0, 0, 0], [5892, -5525, 2644], [-2755, 1190, 640], [12000, 9005, -7000], [700, 300, -200]]
+            prs = [[0, 1], [0, 2], [1, 2], [3, 4], [0, 4], [2, 2]]
+            cs.append({"kind": "rotated", "unreduced": False, "perframe": False, "spread": 3, "special": False, "grid": GRID,
+                       "xyz": [pts], "box": None, "raw_box": [[[x / U for x in v] for v in cell]],
+                       "calls": [{"api": "core_raw", "opt": True, "periodic": True, "pairs": prs},
+                                 {"api": "core_raw", "opt": False, "periodic": True, "pairs": prs}]})
     return cs
 
 
 def build_cases(ctx):
     rng = ctx.rng
-    n = 8 if ctx.tier == "quick" else 150
+    n = 6 if ctx.tier == "quick" else 110
     cases = fixed_cases()
     for kind in CELL_KINDS:
         for _ in range(n if kind != "triclinic" else 3 * n):
@@ -858,6 +877,10 @@ def run_cases(ctx, cases, oracle_only=False):
             exact_class = (K == (1 << c["grid"])) and (M * (1 << c["grid"]) < 2 ** 22)
             info = {"ci": ci, "li": li, "api": api, "opt": opt, "periodic": periodic, "K": K, "M": M,
                     "boxK": boxK if periodic else None, "xyzK": xyzK, "out": out, "exact": exact_class}
+            if "err" in out and c["kind"] == "rotated" and out["err"] == "ValueError":
+                # repaired variant: a cell in non-standard orientation is refused instead of being mis-handled
+                ctx.count({"c": case_id(c), "api": api, "refused": True, "li": li}, nontrivial=True, bucket="rotated/refused")
+                continue
             if "err" in out:
                 ctx.fail("%s raised %s on valid input" % (api, out["err"]), replay_case(c, li), observed=out,
                          expected="a result", tags={"api": api, "kind": "raises"})
